@@ -95,8 +95,9 @@ class Manu(CLICmd):
         retcode = 0
         for i, setup_step in enumerate(setup_chain):
             run_params["count"] = i
-            setup_func = getattr(intertest, setup_step)
             try:
+                # an unknown step is a failed step like any other
+                setup_func = getattr(intertest, setup_step)
                 # TODO: drop the consideration of None in the future if the
                 # functions from the intertest module do not return this value.
                 if setup_func(config, "0m%s" % i) not in [None, 0]:
